@@ -498,7 +498,7 @@ def py_reference(b):
     """The abstract zone of a TZif stream decoded HERE with struct (independent of the model's parse_tzif /
     build): initial offset = first non-DST type (else type 0); per transition the gmtoff of its type; from the
     last transition on the zone's standard type (last non-DST type among the transitions, else the last DST one)
-    -- dateutil's documented rule, compared with the raw data separately (finding F-C04-after-last-transition).
+    -- dateutil's documented rule (stated scope: the raw data is compared on [first, last) only).
     Returns (init, [(t, off)], reference_bytes) where reference_bytes is a TZif stream with one standard type per
     distinct offset, so that decoding it involves none of the std / before / dst rules."""
     try:
@@ -590,8 +590,7 @@ def examine_utc(o, name, b, z, inf, us, usec_of, sb=None):
         if not inr and tlist and u < tlist[0]:
             inr = 1        # before the first transition: the data's first standard type (C06)
         if not inr and tlist and u >= tlist[-1] and g is not None:
-            # from the last transition on dateutil applies ttinfo_std, the data its last type (audit A2):
-            # compared with the RAW data and reported through finding F-C04-after-last-transition
+            # from the last transition on dateutil applies ttinfo_std by design (stated scope): statistic only
             out["after_last_n"] += 1
             if off != g or nm != ab or w - u != g:
                 out["after_last"].append({"u": u, "impl": [off, dst, nm], "data": [g, isd, ab],
